@@ -47,7 +47,7 @@ def gateOf (k : Sched.PeriodKind) (f : Sched.Flags) (idx : List Cal.Stamp) : Lis
     | .error _ => false
 
 /-- counting / once schedulers as state machines over the calls `run()` receives: one call per row from `firstRow` on
-    (row 1 for a backtest's own root, row 0 for a shadow copy) -/
+    (row 1 - the first real date - for a backtest's own root and for every shadow copy: on row 0 nobody's algos run) -/
 def gateCounting (answers : List Cal.Stamp → List Bool) (idx : List Cal.Stamp) (firstRow : Nat) : List Bool :=
   List.replicate (min firstRow idx.length) false ++ answers (idx.drop firstRow)
 
